@@ -108,7 +108,8 @@ class FilteredPick(System):
         p1 = env.get_random_agent(Marker, Wealth)
         p2 = env.get_random_agent(tag=2)
         sh = env.shuffle(Marker, tag=1)
-        m.trace.append(["fpick", p1.id if p1 else None, p2.id if p2 else None, [a.id for a in sh]])
+        sh2 = env.shuffle(Wealth, Marker)         # a template of two component types: candidates in joining order, then shuffled
+        m.trace.append(["fpick", p1.id if p1 else None, p2.id if p2 else None, [a.id for a in sh], [a.id for a in sh2]])
 
 
 class Ambient(System):
@@ -241,7 +242,7 @@ def gen_cfg(rng, tier="quick"):
     names = [n for n in SYSTEMS if rng.random() < 0.7] or ["transfer", "shuffle"]
     if "transfer" not in names and "shuffle" not in names:
         names.append(rng.choice(["transfer", "shuffle"]))
-    return {"world": world, "w": rng.randint(2, 7), "h": rng.randint(2, 6), "pop": rng.randint(3, 12),
+    return {"world": world, "w": rng.randint(2, 7), "h": rng.randint(2, 6), "pop": rng.choice([rng.randint(3, 12), rng.randint(3, 12), rng.randint(13, 30)]),
             "systems": names, "horizon": rng.randint(5, 30 if tier == "thorough" else 14),
             "ambient": [rng.choice([5, 3, 2, 1, 0, -1, -5]) for _ in range(rng.randint(0, 3))],
             "collector": rng.random() < 0.8, "radius": rng.choice([1, 1, 2]), "nmode": rng.choice(["moore", "neumann"]),
